@@ -425,9 +425,9 @@ func Dump(e *Expr) string {
 		return
 	}
 
-	var helper func(int16) (string, bool)
+	var helper func(int16, int) (string, bool)
 
-	helper = func(idx int16) (string, bool) {
+	helper = func(idx int16, depth int) (string, bool) {
 		n := e.nodes[idx]
 		if n.childCnt == 0 {
 			return dumpLeafNode(n)
@@ -439,15 +439,17 @@ func Dump(e *Expr) string {
 		childIdxes := getChildIdxes(idx)
 
 		for _, cIdx := range childIdxes {
-			cc, isLeaf := helper(cIdx)
+			cc, isLeaf := helper(cIdx, depth+1)
 			if isLeaf {
 				sb.WriteString(fmt.Sprintf(" %s", cc))
 				continue
 			}
 
-			for _, cs := range strings.Split(cc, "\n") {
-				sb.WriteString(fmt.Sprintf("\n  %s", cs))
-			}
+			// indent by depth instead of re-indenting the lines of cc,
+			// which may contain string literals with line breaks
+			sb.WriteString("\n")
+			sb.WriteString(strings.Repeat("  ", depth+1))
+			sb.WriteString(cc)
 		}
 		sb.WriteString(")")
 		return sb.String(), false
@@ -460,7 +462,7 @@ func Dump(e *Expr) string {
 		}
 	}
 
-	res, _ := helper(rootIdx)
+	res, _ := helper(rootIdx, 0)
 	return res
 }
 
@@ -477,7 +479,7 @@ func dumpLeafNode(node *node) (string, bool) {
 	var res string
 	switch v := node.value.(type) {
 	case string:
-		res = strconv.Quote(v)
+		res = quoteStr(v)
 	case []string:
 		var sb strings.Builder
 		sb.WriteRune('(')
@@ -485,7 +487,7 @@ func dumpLeafNode(node *node) (string, bool) {
 			if idx != 0 {
 				sb.WriteRune(' ')
 			}
-			sb.WriteString(strconv.Quote(s))
+			sb.WriteString(quoteStr(s))
 		}
 		sb.WriteRune(')')
 		res = sb.String()
@@ -504,6 +506,12 @@ func dumpLeafNode(node *node) (string, bool) {
 		res = fmt.Sprint(v)
 	}
 	return res, true
+}
+
+// quoteStr prints a string literal the way the lexer reads it:
+// the raw text between double quotes, there are no escape sequences
+func quoteStr(s string) string {
+	return `"` + s + `"`
 }
 
 func max(a, b int) int {
